@@ -906,6 +906,11 @@ func main() {
 		stRef.Distribution[k] = v
 	}
 	ctx.RunStream(stRef, pl, pi)
+	// the token-level printer of the round-trip theorems (items + render) against the real String(): same lines and
+	// expected answers as stream `print`
+	stRefPrint := ctx.NewStream("refprint", "Gojq.RefTerm.printProgram (Model/RefTermParser.lean): the writeTo methods as a token sequence with separators (`itemsQ` …) rendered to bytes, on the AST of the reference parser — the printer the round-trip theorems are about",
+		"the accepted sources of stream parse; answer = q.String(); distinct = distinct implementation answers")
+	ctx.RunStream(stRefPrint, ql, qi)
 
 	ctx.Res.Notes = append(ctx.Res.Notes,
 		fmt.Sprintf("corpus: %d strings of cli/test.yaml + %d builtin.jq chunks; %d mutants; %d generated programs; %d accepted distinct sources", len(corpus), len(builtins), nMut, nGen, len(accepted)),
